@@ -36,6 +36,11 @@ def partitions(tier, seed):
         lo, hi = (m, min(m + 3, 9)) if quick else (0, min(m + 4, 14))
         for n in range(lo, hi + 1):
             parts.append(sp.S(PROP, "C13", k, n, budget=25 if quick else 120))
+    from . import synth
+
+    for k in synth.keys():
+        for n in range(0, 9 if quick else 12):
+            parts.append(sp.S(PROP, "C13", k, n, budget=40 if quick else 200))
     G = sp.gen()
     ccs = sp.cc_list()
     if quick:
